@@ -104,6 +104,35 @@ def r18_7(run, model):
                witness="#[derive(ToJson)] enum Opt[T] { .. }: the derive emits `impl Opt { fn to_json(self: Opt) .. }` and the typer reports errors about generated code")
 
 
+def r18_10(run, model):
+    run.rule("R18.10", "generated constructor patterns name their enum: every Pat::PConstr the derive builds for a variant has a constructor path "
+                       "made of the enum's name and the variant's name (a bare variant name is ambiguous when two enums share it)")
+    n = 0
+    helpers = {g.name: g for g in model.fns(DER) if g.body is not None}
+    for f in model.fns(DER):
+        if f.body is None:
+            continue
+        lets = {}
+        for l in S.find(f.body, "Local"):
+            if l["pat"]["k"] == "PIdent" and l.get("init") is not None:
+                lets[l["pat"]["name"]] = l["init"]
+        for st in S.find(f.body, "Struct"):
+            if st["segs"][-1] != "PConstr":
+                continue
+            for fl in st["fields"]:
+                if fl["name"] != "constructor":
+                    continue
+                n += 1
+                e = fl["expr"]
+                if e["k"] == "Path" and len(e["segs"]) == 1 and e["segs"][0] in lets:
+                    e = lets[e["segs"][0]]
+                t = S.norm_ws(run.facts.text(DER, e["sp"]))
+                ok = re.search(r"Path::from_idents\(vec!\[[^\]]*\.name[^\]]*,[^\]]*\]\)", t) is not None
+                run.ob("R18.10", f"{f.name}|constructor path is enum-qualified", ok, site(DER, st["sp"]), f"constructor: {t[:70]}",
+                       witness="enum Tree { Empty, Leaf(int32) } and enum List { Empty, .. } both deriving ToJson: `Ambiguous constructor Empty` about generated code")
+    run.floor("constructor patterns generated by the derive", n, 3)
+
+
 def r18_2(run, model):
     run.rule("R18.2", "JSON string leaves are produced by a JSON encoder: the runtime json_escape_string does not use Go's %q verb (Go syntax: "
                       "\\x00, \\a, \\U0001F600 are not JSON)")
@@ -249,6 +278,28 @@ def r18_6(run, model):
                     run.ob("R18.6", f"{f.name}|comma only between elements", ok, site(DER, st["sp"]), f"`,` fragment guarded by {guards or 'nothing'}",
                            witness="a leading or trailing comma: invalid JSON")
     run.floor("literal fragments of derive body builders", n, 12)
+    # every list a builder renders (a loop over fields / payload bindings that emits encoded elements) separates its elements by a
+    # fragment guarded by that loop's own index: the decision "first element or not" is taken per list, not kept in shared state
+    m_ = 0
+    for f in model.fns(DER):
+        if f.body is None or not re.fullmatch(r"build_(struct|enum)(_json)?_body", f.name):
+            continue
+        for loop in S.find(f.body, "For"):
+            emits = any(S.callee_name(c) in ("call_to_json", "call_to_string") for c in S.calls(loop["body"])) or \
+                any(c["k"] == "MethodCall" and re.search(r"item|push", c["method"]) and any(S.callee_name(x) in ("call_to_json", "call_to_string") for x in S.calls(c)) for c in S.walk(loop["body"]))
+            if not emits:
+                continue
+            m_ += 1
+            guarded = False
+            for iff in S.find(loop["body"], "If"):
+                g = S.norm_ws(run.facts.text(DER, iff["cond"]["sp"]))
+                if re.fullmatch(r"(idx|i|index)>0|(idx|i|index)!=0|!first|(idx|i|index)\+1(!=|<)[\w.]+\.len\(\)", g) and any(
+                        x["k"] == "Lit" and x.get("lit") == "Str" and x["value"].strip() == "," for x in S.walk(iff["then"])):
+                    guarded = True
+            run.ob("R18.6", f"{f.name}|list #{m_} separated by its own index", guarded, site(DER, loop["sp"]),
+                   "`if idx > 0 { \",\" }` inside the element loop" if guarded else "the element loop does not decide the separator from its own index",
+                   witness="enum E { A(int32, int32), C(string, int32) }: the second payload variant starts with a separator: {\"tag\":\"C\",\"fields\":[,\"q\",2]}")
+    run.floor("element loops of derive body builders", m_, 4)
 
 
 def run(run, model):
@@ -260,6 +311,7 @@ def run(run, model):
     run.try_rule(r18_6, model)
     run.try_rule(r18_7, model)
     run.try_rule(r18_8, model)
+    run.try_rule(r18_10, model)
     from rules import c05
     run.rule("R18.9", "binders of generated code are distinct variables (shared with C05 R05.6: every binder id is fresh, never interned by syntax pointer)")
     run.try_rule(c05.r05_6, model)
